@@ -107,8 +107,8 @@ def ref_decode(lib, g, data, compressed):
     return False, None
 
 
-MUTATIONS = ("none", "none", "flip_c", "flip_i", "flip_g", "junk_top", "plus_q", "ge_q", "inf_pad", "inf_greater", "neg_y", "y_plus_1",
-             "outside_subgroup", "no_y", "random", "other_form_identity", "identity")
+MUTATIONS = ("none", "none", "flip_c", "flip_i", "flip_g", "junk_top", "plus_q", "ge_q", "inf_pad", "inf_pad0", "inf_greater", "neg_y", "y_plus_1",
+             "outside_subgroup", "no_y", "random", "other_form_identity", "identity", "invalid_curve")
 
 
 @st.composite
@@ -133,7 +133,7 @@ def build(lib, c):
     K = c05.KK(g)
     n = enc_len(g, comp)
     P = C.gen_mul(g, c["t"])
-    if mut in ("identity", "inf_pad", "inf_greater", "other_form_identity"):
+    if mut in ("identity", "inf_pad", "inf_pad0", "inf_greater", "other_form_identity"):
         P = None
     data, guard = lib_encode(lib, g, P, comp)
     expect(guard == b"\xCD" * 16, "g%d_marshal/overrun" % g, "marshal wrote past the documented encoding size")
@@ -174,6 +174,22 @@ def build(lib, c):
     elif mut == "inf_pad":
         pos = c["pos"] % (n - 1) + 1
         data = data[:pos] + bytes([c["bits"]]) + data[pos + 1:]
+    elif mut == "inf_pad0":
+        # identity encoding with stray low bits in the flag byte itself
+        data = bytes([data[0] | (c["bits"] | (c["pos"] & 0x18)) & 0x1F or 1]) + data[1:]
+    elif mut == "invalid_curve":
+        # a point of order r on the isomorphic curve y^2 = x^3 + b*s^6: (s^2 x, s^3 y). The group formulas do not involve b,
+        # so [r]P = O holds for it; only the curve equation tells it apart.
+        if comp:
+            return data, "none"
+        sv = c["v"] % Q
+        s1 = K.small(sv if sv > 1 else 2)
+        s2 = K.mul(s1, s1)
+        s3 = K.mul(s2, s1)
+        Pn = (K.mul(s2, P[0]), K.mul(s3, P[1]))
+        if C.on_curve(Pn, K):
+            return data, "none"
+        data = lib_encode(lib, g, Pn, comp)[0]
     elif mut == "inf_greater":
         data = bytes([data[0] | FLAG_G]) + data[1:]
     elif mut == "other_form_identity":
